@@ -3,6 +3,7 @@
 Used by C01 (same items / ending), C05 (same pulls) and C04 (source released when the outermost
 iterator is closed after j items, exhausted, or fails).
 """
+import inspect
 import itertools
 import heapq
 
@@ -109,6 +110,8 @@ def run_both(case):
     src_s = make_source(ctx_s, "s0", mats(case["items"]), {}, "s")
     limit = case["take"] if case["take"] is not None else 60
     close_errors = []
+    made, info = [], {}
+    run_both.info = info
 
     async def consume():
         it = src_a.obj
@@ -117,6 +120,7 @@ def run_both(case):
         for stage in case["stages"]:
             name, k, pre = stage[0], stage[1], (stage[2] if len(stage) > 2 else 0)
             it = STAGES[name][0](it, k)
+            made.append(it)
             for _ in range(pre):
                 # a partly consumed library iterator is then handed to the next tool
                 try:
@@ -140,6 +144,10 @@ def run_both(case):
             except Exception as exc:
                 events.append(("raise", type(exc).__name__))
                 break
+        # a generator-based tool that was never advanced owes nothing to what it was given (closing it does not
+        # run it): everything upstream of such a stage is then out of the closing consumer's reach
+        info["unstarted_stage"] = any(inspect.isasyncgen(g) and inspect.getasyncgenstate(g) == inspect.AGEN_CREATED
+                                      for g in made)
         closer = getattr(it, "aclose", None)
         if closer is not None:
             try:
